@@ -111,8 +111,8 @@ Fixpoint walk (t : sk) (p : pst) : pst :=
   end.
 
 (** ---- what the model does: the access codes thread [t] performs under a schedule *)
-Definition thread_codes (v : variant) (rs : list req) (sched : list Z) (t : Z) : option (list Z) :=
-  match run_trace v (nth_req rs) sched (cinit v (nth_req rs)) with
+Definition thread_codes (pre : bool) (v : variant) (rs : list req) (sched : list Z) (t : Z) : option (list Z) :=
+  match run_trace v (nth_req rs) sched (cinit pre v (nth_req rs)) with
   | Some (tr, _) => Some (map (fun e => snd (fst (fst e)))
                             (filter (fun e => (fst (fst (fst e)) =? t) && negb (snd (fst (fst e)) =? 16)) tr))
   | None => None
@@ -185,6 +185,13 @@ Definition wsdl_paths (v : variant) : list (list req * list Z * Z * list bool) :
       [ ([RWsdl], [0;0;0;0;0;0;0;0;0;0;0], 0, [true; true; true]);
         ([RWsdl; RWsdl], [0;0;0;0;0;0;0;0;0;0;0;1;1], 1, [false; false]) ]
   end.
+(** the WSDL was built at start-up: no request builds, one read of the builder's document *)
+Definition wsdl_pre_paths (v : variant) : list (list req * list Z * Z * list bool) :=
+  match v with
+  | Repaired => [ ([RWsdl], [0;0], 0, [true; false]);
+                  ([RWsdl; RWsdl], [0;0;1;1], 1, [true; false]) ]
+  | Pinned =>   [ ([RWsdl], [0;0;0;0], 0, [true; false]) ]
+  end.
 Definition attrs_paths (v : variant) : list (list req * list Z * Z * list bool) :=
   match v with
   | Repaired =>
@@ -229,12 +236,13 @@ Fixpoint walk_calls (n : nat) (t : sk) (p : pst) : pst :=
 Definition paths_of (t : sk) (raises : bool) (branches : list bool) : list Z :=
   rev (evs (walk_calls 8 t {| evs := []; stop := false; orc := branches; pub_attr := false; pub_sort := false; nupd := 0; boom := raises; exn := false |})).
 
-Definition path_ok (v : variant) (t : sk) (c : list req * list Z * Z * list bool) : bool :=
+Definition path_ok (pre : bool) (v : variant) (t : sk) (c : list req * list Z * Z * list bool) : bool :=
   let '(rs, sched, th, bs) := c in
-  same (thread_codes v rs sched th)
+  same (thread_codes pre v rs sched th)
        (paths_of t (match nth_req rs th with RValidateX _ => true | _ => false end) bs).
 
 Definition paths_ok (v : variant) (w a val m s : sk) : bool :=
-  forallb (path_ok v w) (wsdl_paths v) && forallb (path_ok v a) (attrs_paths v) &&
-  forallb (path_ok v val) (validate_paths v) && forallb (path_ok v m) memo_paths &&
-  forallb (path_ok v s) sort_paths.
+  forallb (path_ok false v w) (wsdl_paths v) && forallb (path_ok true v w) (wsdl_pre_paths v) &&
+  forallb (path_ok false v a) (attrs_paths v) &&
+  forallb (path_ok false v val) (validate_paths v) && forallb (path_ok false v m) memo_paths &&
+  forallb (path_ok false v s) sort_paths.
